@@ -3,6 +3,8 @@
   stdin, one answer line on stdout.  Core-only imports (no Mathlib) so that it links.
 -/
 import TshVerif.Model.Lexer
+import TshVerif.Model.Sexp
+import TshVerif.Model.EmitBash
 
 open Tsh
 
@@ -18,7 +20,23 @@ def handleLex (hex : String) : String :=
     | .err => "ERR"
     | .diverge => "DIVERGE"
 
+def withProgram (sexp : String) (f : Program → String) : String :=
+  match Sexp.parse sexp with
+  | none => "BADSEXP"
+  | some sx =>
+    match decProgram sx with
+    | none => "BADAST"
+    | some p => f p
+
+def handleBash (sexp : String) : String :=
+  withProgram sexp fun p =>
+    match Bash.emitBash p with
+    | .ok s => "OK " ++ hexOfString s
+    | .error _ => "ERR"
+    | .panic _ => "PANIC"
+
 def handle (line : String) : String :=
+  if line.startsWith "BASH " then handleBash (line.drop 5).toString else
   match line.splitOn " " with
   | ["LEX"] => handleLex ""
   | ["LEX", hex] => handleLex hex
@@ -27,7 +45,7 @@ def handle (line : String) : String :=
 partial def loop (h : IO.FS.Stream) (out : IO.FS.Stream) : IO Unit := do
   let line ← h.getLine
   if line.isEmpty then return ()
-  let line := (line.dropRightWhile (fun c => c == '\n' || c == '\r'))
+  let line := (line.dropEndWhile (fun c => c == '\n' || c == '\r')).toString
   out.putStrLn (handle line)
   loop h out
 
